@@ -67,7 +67,7 @@ verif_harness! {
     }
 }
 
-//@ harness name=kuz_soft_leaf_sub_bytes prop=C07,C20 tier=quick bits=128 quick=C20 est=30 desc="L: sub_bytes(b, &P) == oracle S(b) and sub_bytes(b, &P_INV) == oracle S^-1(b) for all 2^128 b (u128 little-endian view)"
+//@ harness name=kuz_soft_leaf_sub_bytes prop=C07,C20 tier=quick bits=128 quick=C20 est=35 desc="L: sub_bytes(b, &P) == oracle S(b) and sub_bytes(b, &P_INV) == oracle S^-1(b) for all 2^128 b (u128 little-endian view)"
 verif_harness! {
     name: kuz_soft_leaf_sub_bytes,
     bytes: 16,
@@ -187,7 +187,7 @@ verif_harness! {
     prop: |inp| { k::w_enc_rk(inp, Route::RefClone) }
 }
 
-//@ harness name=kuz_soft_par3 prop=C04,C20 tier=quick bits=1664 stub=1 est=185 need=5 desc="W: KuznyechikEnc::encrypt_blocks on 3 blocks (exactly one 3-wide encrypt_par_blocks batch of the big_soft back end) == three encrypt_block calls on the same instance, all three output blocks; arbitrary round keys, all block contents"
+//@ harness name=kuz_soft_par3 prop=C04,C20 tier=quick bits=1664 stub=1 est=235 need=5 desc="W: KuznyechikEnc::encrypt_blocks on 3 blocks (exactly one 3-wide encrypt_par_blocks batch of the big_soft back end) == three encrypt_block calls on the same instance, all three output blocks; arbitrary round keys, all block contents"
 verif_harness! {
     name: kuz_soft_par3,
     bytes: 160 + 48,
@@ -268,7 +268,7 @@ verif_harness! {
     stubs: [(crate::big_soft::backends::transform, stub_transform), (crate::big_soft::backends::sub_bytes, stub_sub_bytes)],
     prop: |inp| { k::w_roundtrip_rk(inp, 0, true) }
 }
-//@ harness name=kuz_soft_rt_ed prop=C01,C20 tier=quick bits=1408 stub=1 est=185 need=6 desc="W: Kuznyechik::from(&enc): dec(enc(b)) == b, arbitrary round keys, all blocks (S, L uninterpreted inverse pairs, linearity instances of L^-1 assumed)"
+//@ harness name=kuz_soft_rt_ed prop=C01,C20 tier=quick bits=1408 stub=1 est=265 need=6 desc="W: Kuznyechik::from(&enc): dec(enc(b)) == b, arbitrary round keys, all blocks (S, L uninterpreted inverse pairs, linearity instances of L^-1 assumed)"
 verif_harness! {
     name: kuz_soft_rt_ed,
     bytes: 160 + 16,
